@@ -153,7 +153,7 @@ theorem C01_f32_transfer_relu (t : Tie) (c : ReluCfg) (x : ℚ) (hsl : c.slopeLo
   exact C01_f32_transfer_relu_all t c x hsl hn0 hn24 hs hi hx ho1 ho2
 
 /-- non-vacuity, including an input far beyond `2^24` steps (saturates exactly) -/
-example : let c : ReluCfg := ⟨8, 8, none⟩
+example : let c : ReluCfg := { bits := 8, integer := 8, slopeLog := none }
     isF32 33554436 = true ∧ qreluF .even c 33554436 = 255 ∧ qrelu .even c 33554436 = 255 ∧
     qreluF .even c (rnd32 (3 / 10)) = 0 ∧ qreluF .even c (rnd32 (37 / 10)) = 4 := by
   refine ⟨by decide +kernel, by decide +kernel, by decide +kernel, by decide +kernel,
